@@ -87,6 +87,8 @@ func main() {
 		runC06proc(c)
 	case "C12":
 		runC12proc(c)
+	case "C01":
+		runC01proc(c)
 	default:
 		fmt.Println("unknown property for vproc:", *prop)
 		os.Exit(2)
